@@ -329,6 +329,19 @@ def case_mutation(ctx, cfg):
     stx = XF.exact_state(G, XF.pool(dim)[3], x)
     ctx.state(cfg)
 
+    # an identity that is edited in place must not change what identity() / t**0 return afterwards
+    if g == "shear":
+        t_id = G.identity(dim)
+        t_id[0, n - 1] = 3.0
+        for label, mk in (("identity()", lambda: G.identity(dim)), ("t**0", lambda: G.Transformation(XF.mat_np(M)) ** 0), ("identity() again", lambda: G.identity(dim))):
+            r, e = ctx.call(mk)
+            ctx.trace()
+            if e is not None or not np.array_equal(np.asarray(r.array), np.eye(n)):
+                ctx.fail("identity:after-an-identity-was-edited-in-place", label, {"dim": dim}, np.eye(n), e if e is not None else r.array)
+                t_id[0, n - 1] = 0.0  # undo the edit: if storage is shared, later configurations of this worker must not see it
+                return
+        t_id[0, n - 1] = 0.0
+
     def consistent(t, Mexact, tag):
         inv, e = ctx.call(t.inverse)
         ctx.trace()
